@@ -182,6 +182,35 @@ def vacuous(r):
     return (r["kind"] == "ineq" and fp[0] >= 0) or (r["kind"] == "eq" and abs(fp[0]) < 1e-13)
 
 
+def _origin_class(origin):
+    parts = origin.split(":")
+    if len(parts) > 1 and parts[0][:1] == "s" and parts[0][1:].isdigit():
+        return parts[1]          # 's<i>:<class>:...' rows of stage i in a multi-stage program
+    return parts[0]
+
+
+def row_factor(real_row, ref_row):
+    """c with real = c * ref (least squares) for a matched pair"""
+    b = np.asarray(ref_row["fp"], dtype=float); a = np.asarray(real_row["fp"], dtype=float)
+    nb = float(np.dot(b, b))
+    return float(np.dot(a, b) / nb) if nb > 1e-28 else float("nan")
+
+
+def der_scale_mismatches(real_rows, ref_rows, der_scales, prefix=""):
+    """collocation residuals are divided by the declared derivative scale of their state component:
+    matched rows '<prefix>dyn:coll:k:l:j:i' must be the reference residual times 1/der_scales[i] (up to sign)"""
+    out = []
+    for r in ref_rows:
+        if not r["origin"].startswith(prefix + "dyn:coll:") or "match" not in r:
+            continue
+        i = int(r["origin"].split(":")[-1])
+        c = abs(row_factor(real_rows[r["match"]], r))
+        want = 1.0 / float(der_scales[i])
+        if np.isfinite(c) and abs(c - want) > 1e-7 * max(1.0, want):
+            out.append((r["origin"], "collocation residual of state component %d is the physical residual times %g; declared derivative scale %g gives %g" % (i, c, der_scales[i], want)))
+    return out
+
+
 def match_rows(real_rows, ref_rows, tol=1e-8, set_origins=("grid", "Tpos"), prop_origins=()):
     """Multiset matching of canonical rows; set-semantics (up to positive scaling) for the
     origins in set_origins.  Returns (missing_ref_rows, extra_real_rows)."""
@@ -196,7 +225,7 @@ def match_rows(real_rows, ref_rows, tol=1e-8, set_origins=("grid", "Tpos"), prop
                 continue
             if close(q["fp"], r["fp"], tol) or (r["kind"] == "eq" and close(q["fp"], -r["fp"], tol)):
                 hit = j; break
-            if r["origin"].split(":")[0] in prop_origins and proportional(q["fp"], r["fp"], r["kind"], tol):
+            if _origin_class(r["origin"]) in prop_origins and proportional(q["fp"], r["fp"], r["kind"], tol):
                 hit = j; break      # internal rows: scale is an implementation choice (one positive constant per row)
         if hit is None:
             if vacuous(r):
